@@ -142,8 +142,8 @@ def _expected(objs, rq):
             return None
         if mut == "dslash" and root:
             return None  # '//' -> after slash normalisation still contains '//': not found; keep unknown for '/'
-        if mut in ("msg0", "msgneg") and o["what"] in ("exec", "zip:exec"):
-            return None
+        if mut.startswith("msg") and o["what"] in ("exec", "zip:exec"):
+            return None  # a script takes whatever follows '|' or '?' as its arguments
         return "error"
     return None
 
